@@ -306,11 +306,56 @@ DeepMax == 100
 TriCases == {[n |-> n, v |-> v] : n \in (0 .. Small) \cup {b % 1000 : b \in Big}, v \in {0, 1, 2}}
 
 (****************************************************************************)
+(* Least squares / minimum norm (Dgels), m >= n, A = Q0 * R0 of full column *)
+(* rank: Q0 signed permutation (Q1 = its first n columns, Q2 the rest),     *)
+(* R0 upper triangular with diagonal +-16 and at most 3 entries of modulus  *)
+(* <= 2 right of the diagonal in each row (row diagonally dominant:         *)
+(* ||R0^{-1}||_inf <= 1/10, kappa_inf(A) <= 2.2, max|a_ij| = 16 = 2^4).     *)
+(*  least squares:  BLS = A*X0 + Q2*Rho  (residual orthogonal to range(A)), *)
+(*                  so the unique minimiser of ||A*X - BLS|| is X0;         *)
+(*  minimum norm:   BMN = A^T*XMN with XMN = Q1*Y0 in range(A), so XMN is   *)
+(*                  the minimum norm solution of A^T*X = BMN.               *)
+(* The transposed array drives the m < n cases of Dgels.  Variant 1 plants  *)
+(* r_kk = 0 (rank deficient: ok must be false).  Scaling of A and B by      *)
+(* powers of two (exact) multiplies the answers by 2^(eb-ea).               *)
+(* PlantedLemmas!LsLemma checks the normal equations A^T(A*X0 - BLS) = 0,   *)
+(* A^T*XMN = BMN and XMN = A*W for an integer-rational W (range condition   *)
+(* through Q2^T*XMN = 0).                                                   *)
+(****************************************************************************)
+LsInst(m, n, v) ==
+  LET perm == Pos(Fn([t \in 0 .. m - 1 |-> t + (H(t, m + n, 61) % (m - t))]), m, m)
+      qidx == InvPerm(perm, m)
+      sg == Fn([t \in 0 .. m - 1 |-> Sign(t, m, 62)])
+      kz == IF v = 1 THEN H(m, n, 63) % n ELSE -1
+      RCols == Fn([t \in 0 .. n - 1 |-> IF t = n - 1 THEN {} ELSE {t + 1 + (H(t, u, 64) % (n - 1 - t)) : u \in 1 .. 3}])
+      Rv(t, c) == IF c < t THEN 0
+                  ELSE IF c = t THEN (IF t = kz THEN 0 ELSE Sign(t, t, 65) * 16)
+                  ELSE IF c \in RCols[t] THEN (H(t, c, 66) % 5) - 2 ELSE 0
+      R0 == Mat(n, n, Rv)
+      A == Mat(m, n, LAMBDA i, c : IF qidx[i] < n THEN sg[qidx[i]] * R0[qidx[i]][c] ELSE 0)
+      R == Nrhs
+      X0 == Mat(n, R, LAMBDA i, j : (H(i, j, 67) % 9) - 4)
+      Y0 == Mat(n, R, LAMBDA i, j : (H(i, j, 68) % 9) - 4)
+      Rho == Mat(m, R, LAMBDA t, j : IF t < n THEN 0 ELSE (H(t, j, 69) % 7) - 3)
+      RX == Mat(n, R, LAMBDA t, j : SumSet(LAMBDA c : R0[t][c] * X0[c][j], RCols[t] \cup {t}))
+      BLS == Mat(m, R, LAMBDA i, j : sg[qidx[i]] * (IF qidx[i] < n THEN RX[qidx[i]][j] ELSE Rho[qidx[i]][j]))
+      XMN == Mat(m, R, LAMBDA i, j : IF qidx[i] < n THEN sg[qidx[i]] * Y0[qidx[i]][j] ELSE 0)
+      BMN == Mat(n, R, LAMBDA c, j : SumR(LAMBDA t : R0[t][c] * Y0[t][j], 0, c))
+  IN [fam |-> "ls", m |-> m, n |-> n, v |-> v, den |-> 1, ok |-> (v = 0), kz |-> kz, R |-> R,
+      A |-> MatSeq(A, m, n), X |-> MatSeq(X0, n, R), B |-> MatSeq(BLS, m, R),
+      XMN |-> MatSeq(XMN, m, R), BMN |-> MatSeq(BMN, n, R),
+      Q |-> MatSeq(Mat(m, m, LAMBDA i, t : IF perm[t] = i THEN sg[t] ELSE 0), m, m),
+      tol |-> 100 * Max(m, 1) * (1 + NormMax(X0, n, R) + NormMax(XMN, m, R))]
+
+LsCases == {[m |-> s[1], n |-> s[2], v |-> v] : s \in Shapes2, v \in {0, 1}}
+
+(****************************************************************************)
 Cases == CASE Fam = "lu" -> {x \in LuCases : LuValid(x)}
            [] Fam = "chol" -> {x \in ChCases : ChValid(x)}
            [] Fam = "qr" -> QrCases
            [] Fam = "qp3" -> {z \in Qp3Cases : z.v <= z.n}
            [] Fam = "tri" -> {z \in TriCases : z.v # 2 \/ z.n >= 1}
+           [] Fam = "ls" -> {z \in LsCases : z.m >= z.n /\ (z.v = 0 \/ z.n >= 1)}
            [] Fam = "larft" -> {x \in LarftCases : x.n <= x.m}
 
 Inst(x) == CASE Fam = "lu" -> LuInst(x.m, x.n, x.v)
@@ -318,6 +363,7 @@ Inst(x) == CASE Fam = "lu" -> LuInst(x.m, x.n, x.v)
              [] Fam = "qr" -> QrInst(x.m, x.n)
              [] Fam = "qp3" -> Qp3Inst(x.m, x.n, x.v)
              [] Fam = "tri" -> TriInst(x.n, x.v, x.n <= DeepMax)
+             [] Fam = "ls" -> LsInst(x.m, x.n, x.v)
              [] Fam = "larft" -> LarftInst(x.m, x.n, x.v)
 
 Init == cs \in Cases
